@@ -23,6 +23,7 @@ const K_DATA: u16 = 43;
 const K_TRANSIT: u16 = 44;
 const K_PLAN: u16 = 45;
 const K_PROBE: u16 = 46;
+const K_HELLO: u16 = 47;
 
 #[derive(Debug, Clone, Copy, Serialize, Deserialize, PartialEq)]
 pub enum Restart {
@@ -74,6 +75,8 @@ pub enum Kind {
     TransitRecv(usize),
     /// p0: victim reported active by child()
     Probe(bool),
+    /// p1: the message that incarnation `inc` of the victim sends from its first start-up stage
+    Hello(u32),
 }
 
 #[derive(Debug, Clone, Copy, PartialEq, Eq, Serialize, Deserialize)]
@@ -133,6 +136,8 @@ impl Module for Victim {
         if stage != 0 {
             return;
         }
+        // like a freshly started module: what is sent during start-up is delivered
+        send(Message::default().kind(K_HELLO).id(self.inc as u16), "up");
         let (k, inc, horizon) = (self.k, self.inc, self.horizon);
         let p = self.plan.tick_period;
         tokio::spawn(async move {
@@ -222,6 +227,11 @@ impl Module for Root {
 struct Sink;
 impl Module for Sink {
     fn handle_message(&mut self, msg: Message) {
+        if msg.header().kind == K_HELLO {
+            let gate = msg.header().last_gate.as_ref().map_or(String::new(), |g| g.name().to_string());
+            let v: usize = gate.trim_start_matches("hello").parse().unwrap_or(usize::MAX);
+            log(1, v, 0, Kind::Hello(u32::from(msg.header().id)));
+        }
         if msg.header().kind == K_TRANSIT {
             let gate = msg.header().last_gate.as_ref().map_or(String::new(), |g| g.name().to_string());
             let v: usize = gate.trim_start_matches("in").parse().unwrap_or(usize::MAX);
@@ -269,6 +279,9 @@ pub fn execute(case: &Case) -> Observed {
             let t0 = sim.gate("p0", &format!("tr{v}"));
             let t1 = sim.gate(path.as_str(), "pass");
             let t2 = sim.gate("p1", &format!("in{v}"));
+            let h0 = sim.gate(path.as_str(), "up");
+            let h1 = sim.gate("p1", &format!("hello{v}"));
+            h0.connect(h1, None);
             t0.connect(t1.clone(), lat(vp.transit_latency_a));
             t1.connect(t2, lat(vp.transit_latency_b));
         }
@@ -367,6 +380,7 @@ pub fn reference(case: &Case) -> Reference {
                 // start-up stages are never optional: they must run exactly once at exactly the restart time
                 r.mandatory.push(Expect { module: m, about: v, kind: Kind::Start(stage), t: *s, inc: Some(*inc) });
             }
+            r.mandatory.push(Expect { module: 1, about: v, kind: Kind::Hello(*inc), t: *s, inc: None });
             // ticker task of this incarnation
             let mut t = *s;
             while t + vp.tick_period <= case.horizon {
@@ -495,6 +509,7 @@ pub fn check(case: &Case, o: &Observed) -> Vec<Finding> {
                 Kind::Tick | Kind::KillerFired(_) => "task-ran-while-down-or-twice",
                 Kind::Beat | Kind::Data(_) | Kind::Cmd(_) => "message-handled-while-down-or-twice",
                 Kind::TransitRecv(_) => "transit-through-down-module",
+                Kind::Hello(_) => "unexpected-startup-message",
                 Kind::Start(_) => "unexpected-start",
                 Kind::Reset => "unexpected-reset",
                 Kind::Probe(_) => "active-flag",
@@ -514,6 +529,7 @@ pub fn check(case: &Case, o: &Observed) -> Vec<Finding> {
                 Kind::Reset => "reset-missing",
                 Kind::Probe(_) => "active-flag",
                 Kind::TransitRecv(_) => "other-module-affected",
+                Kind::Hello(_) => "startup-send-lost",
                 _ => "not-handled-while-up",
             };
             f.push((
